@@ -23,7 +23,7 @@ def mk_time(it, world, tag):
     for f in ("year", "month", "day", "hour", "minute", "DOW"):
         o.attrs[f] = opt_int("%s.%s" % (tag, f))
     keys = sorted(world.pod_table().keys())
-    pod = FinStr(keys + ["\x00not-a-pod"], z3.Int(tag + ".POD"))
+    pod = FinStr(keys, z3.Int(tag + ".POD"))
     it.assume(pod.domain())
     o.attrs["POD"] = SOpt(z3.Bool(tag + ".POD?none"), pod)
     o.attrs["mstart"] = z3.Int(tag + ".mstart")
